@@ -12,6 +12,7 @@ import (
 
 	"github.com/EliCDavis/polyform/math/geometry"
 	"github.com/EliCDavis/polyform/math/sample"
+	"github.com/EliCDavis/polyform/math/sdf"
 	"github.com/EliCDavis/polyform/modeling"
 	"github.com/EliCDavis/polyform/modeling/marching"
 	"github.com/EliCDavis/vector/vector3"
@@ -37,6 +38,8 @@ type fieldDesc struct {
 	DelayAttr string    `json:"delay_attr,omitempty"`
 	DelayUS   int       `json:"delay_us,omitempty"`
 	blocks    [3][2]int // predicted block range per axis
+	// pf kinds: polyform's own function (one instance per Add* call, shared by all attributes and workers)
+	base sample.Vec3ToFloat
 }
 
 type scene struct {
@@ -91,7 +94,10 @@ func genScene(r *rand.Rand, budget int, maxFields int) *scene {
 			}
 		}
 		nf := 1 + r.Intn(maxFields)
-		kinds := []string{"ellipsoid", "slab", "gyroid", "lattice"}
+		// harness closures, and polyform's OWN composite fields (CombineFields / Field.Combine of
+		// marching.Sphere/Box/Line, MultiSegmentLine, VarryingThicknessLine): there the code
+		// that the adders' workers share is polyform's, not a user callback
+		kinds := []string{"ellipsoid", "slab", "gyroid", "lattice", "pf-combine", "pf-multiline", "pf-varline", "pf-combine"}
 		sceneKind := ""
 		if r.Intn(3) == 0 {
 			sceneKind = "lattice" // lattice-only scenes get the coordinate-wise comparison
@@ -151,7 +157,9 @@ func genScene(r *rand.Rand, budget int, maxFields int) *scene {
 			}
 			// attributes of this field: non-empty subset; field 0 always carries Position
 			for i, a := range sc.Attrs {
-				if (i == 0 && f == 0) || r.Intn(10) < 7 {
+				// polyform's composite fields carry every attribute of the scene: all of them map
+				// to ONE polyform closure, which more workers then sample at the same time
+				if (i == 0 && f == 0) || r.Intn(10) < 7 || strings.HasPrefix(fd.Kind, "pf-") {
 					fd.Attrs = append(fd.Attrs, a)
 				}
 			}
@@ -190,7 +198,66 @@ func genScene(r *rand.Rand, budget int, maxFields int) *scene {
 	}
 }
 
+func (fd *fieldDesc) isPF() bool { return strings.HasPrefix(fd.Kind, "pf-") }
+
+// pfField builds one of polyform's own composite fields inside the region Lo..Hi
+// (deterministic in the description: seeded by Salt). The Domain is polyform's.
+func (fd *fieldDesc) pfField(cpu float64) marching.Field {
+	r := rand.New(rand.NewSource(int64(fd.Salt) + 1))
+	var lo, size [3]float64
+	minSide := math.Inf(1)
+	for a := 0; a < 3; a++ {
+		lo[a] = fd.Lo[a] / cpu
+		size[a] = (fd.Hi[a] - fd.Lo[a]) / cpu
+		minSide = math.Min(minSide, size[a])
+	}
+	at := func(fx, fy, fz float64) vector3.Float64 {
+		return vector3.New(lo[0]+fx*size[0], lo[1]+fy*size[1], lo[2]+fz*size[2])
+	}
+	pt := func() vector3.Float64 { return at(0.15+0.7*r.Float64(), 0.15+0.7*r.Float64(), 0.15+0.7*r.Float64()) }
+	path := func() []vector3.Float64 {
+		// from one corner region to the opposite one (crosses whatever block boundary the region straddles)
+		pts := []vector3.Float64{at(0.1+0.1*r.Float64(), 0.1+0.15*r.Float64(), 0.1+0.2*r.Float64())}
+		for k := r.Intn(3) + 1; k > 0; k-- {
+			pts = append(pts, pt())
+		}
+		return append(pts, at(0.9-0.1*r.Float64(), 0.9-0.15*r.Float64(), 0.9-0.2*r.Float64()))
+	}
+	switch fd.Kind {
+	case "pf-multiline":
+		return marching.MultiSegmentLine(path(), minSide*(0.07+0.06*r.Float64()), 1)
+	case "pf-varline":
+		var lp []sdf.LinePoint
+		for _, p := range path() {
+			lp = append(lp, sdf.LinePoint{Point: p, Radius: minSide * (0.05 + 0.1*r.Float64())})
+		}
+		return marching.VarryingThicknessLine(lp, 1+r.Float64())
+	}
+	fields := []marching.Field{marching.Sphere(at(0.5, 0.5, 0.5), minSide*(0.28+0.15*r.Float64()), 1)}
+	extra := 2 + r.Intn(4)
+	if fd.Kind == "pf-stress" {
+		extra = 8 + r.Intn(5) // many sub-fields spread over the region: element lists differ from place to place
+	}
+	for n := extra; n > 0; n-- {
+		switch r.Intn(3) {
+		case 0:
+			fields = append(fields, marching.Sphere(pt(), minSide*(0.15+0.15*r.Float64()), 1+0.4*r.Float64()))
+		case 1:
+			fields = append(fields, marching.Box(pt(), vector3.New(minSide*(0.2+0.3*r.Float64()), minSide*(0.15+0.3*r.Float64()), minSide*(0.25+0.3*r.Float64())), 0.4+0.6*r.Float64()))
+		default:
+			fields = append(fields, marching.Line(pt(), pt(), minSide*(0.06+0.06*r.Float64()), 1))
+		}
+	}
+	if r.Intn(2) == 0 {
+		return fields[0].Combine(fields[1:]...)
+	}
+	return marching.CombineFields(fields...)
+}
+
 func (fd *fieldDesc) domain(cpu float64) geometry.AABB {
+	if fd.isPF() {
+		return fd.pfField(cpu).Domain
+	}
 	return geometry.NewAABBFromPoints(
 		vector3.New(fd.Lo[0]/cpu, fd.Lo[1]/cpu, fd.Lo[2]/cpu),
 		vector3.New(fd.Hi[0]/cpu, fd.Hi[1]/cpu, fd.Hi[2]/cpu))
@@ -400,6 +467,8 @@ func (fd *fieldDesc) function(cpu float64, ai int, pr *probe, call int, attr str
 			x, y, z := a*v.X(), b*v.Y()+0.5, g*v.Z()+1.1+float64(ai)
 			return math.Sin(x)*math.Cos(y) + math.Sin(y)*math.Cos(z) + math.Sin(z)*math.Cos(x) + sh
 		}
+	case "pf-combine", "pf-multiline", "pf-varline", "pf-stress":
+		f = fd.base
 	default: // lattice: a value from {-1.5,-0.5,0.5,1.5} per lattice point, by hash of its integer coordinates
 		vals := [4]float64{-1.5, -0.5, 0.5, 1.5}
 		bias := uint32(P[0] * 3) // how often "inside"
@@ -438,6 +507,13 @@ func (fd *fieldDesc) function(cpu float64, ai int, pr *probe, call int, attr str
 func (sc *scene) field(i int, pr *probe) marching.Field {
 	fd := &sc.Fields[i]
 	fns := map[string]sample.Vec3ToFloat{}
+	var pf marching.Field
+	if fd.isPF() {
+		cp := *fd
+		pf = fd.pfField(sc.CPU)
+		cp.base = pf.Float1Functions[modeling.PositionAttribute]
+		fd = &cp
+	}
 	for _, a := range fd.Attrs {
 		ai := 0
 		for k, n := range attrPalette {
@@ -446,6 +522,9 @@ func (sc *scene) field(i int, pr *probe) marching.Field {
 			}
 		}
 		fns[a] = fd.function(sc.CPU, ai, pr, i, a)
+	}
+	if fd.isPF() {
+		return marching.Field{Domain: pf.Domain, Float1Functions: fns}
 	}
 	return marching.Field{Domain: fd.domain(sc.CPU), Float1Functions: fns}
 }
@@ -862,6 +941,78 @@ func manyBlocks(c *run.Ctx) run.Result {
 	return res
 }
 
+// pfStressCases: polyform's CombineFields closure under as much concurrent sampling as the
+// adders can produce (after the history cases).
+func pfStressCases(tier string) int {
+	if tier == "thorough" {
+		return 30
+	}
+	return 4
+}
+
+// pfStress: ONE CombineFields field of 9-13 spheres/boxes/lines spread over a region that
+// straddles a block corner in x and y (4 blocks), registered under three attributes that all
+// map to the same polyform closure (12 jobs sampling one closure at once, no delays). The
+// canvas filled by AddField is the reference for three AddFieldParallel fills and one
+// AddFieldParallel2 fill on fresh canvases, each observed through the sequential March.
+func pfStress(c *run.Ctx) run.Result {
+	var res run.Result
+	r := c.Rng
+	sc := &scene{CPU: []float64{4, 5, 8}[r.Intn(3)], Cutoff: 0, Attrs: attrPalette}
+	for a := 0; a < 3; a++ {
+		sc.Anchor[a] = r.Intn(4) - 1
+	}
+	fd := fieldDesc{Kind: "pf-stress", Salt: r.Uint32(), Yield: 0xffffffff, Attrs: attrPalette}
+	for a := 0; a < 3; a++ {
+		B := float64(sc.Anchor[a] * blockCells)
+		if a < 2 {
+			fd.Lo[a], fd.Hi[a] = B-float64(14+r.Intn(14))-r.Float64(), B+float64(14+r.Intn(14))+r.Float64()
+		} else {
+			lo := B + float64(20+r.Intn(30))
+			fd.Lo[a], fd.Hi[a] = lo+r.Float64(), lo+float64(24+r.Intn(14))+r.Float64()
+		}
+	}
+	sc.Fields = []fieldDesc{fd}
+	sc.derive()
+	res.Sig = "pf-stress/" + sc.sig()
+	res.Sample = sc
+	input := sc.inputClass()
+	c.Note("pf-stress " + sc.sig())
+	attr := modeling.PositionAttribute
+	cSeq, p := sc.fill(addSeq, nil)
+	if p != nil {
+		res.Inconclusive = "reference: AddField panicked: " + p.Value
+		return res
+	}
+	seq, p := march(cSeq, attr, sc.Cutoff, false)
+	if p != nil || seq.err != "" || seq.n == 0 {
+		res.Inconclusive = fmt.Sprintf("reference: sequential March unusable (panic %v, err %q, %d triangles)", p != nil, seq.err, seq.n)
+		return res
+	}
+	for rep, how := range []adder{addPar, addPar, addPar, addPar2} {
+		c.Note(fmt.Sprintf("fill #%d with %s", rep, adderSite[how]))
+		cv, pp := sc.fill(how, nil)
+		if pp != nil {
+			res.Violate("runtime-panic", adderSite[how], input, pp.Value+"\n"+pp.Stack, sc.witness())
+			continue
+		}
+		got, pm := march(cv, attr, sc.Cutoff, false)
+		if pm != nil {
+			res.Violate("field-accumulate-mismatch", adderSite[how], input, "March of the AddField canvas succeeds, March of the canvas filled by "+adderSite[how]+" panics: "+pm.Value, sc.witness())
+		} else if d := seq.diff(got, false); d != "" {
+			res.Violate("field-accumulate-mismatch", adderSite[how], input,
+				fmt.Sprintf("fill #%d: canvas filled by %s (polyform's own CombineFields closure, no user code) marches differently from the canvas filled by AddField: %s", rep, adderSite[how], d), sc.witness())
+		}
+		res.Count("pf_stress_fills_compared", 1)
+	}
+	res.Count("field_triangles_compared", int64(seq.n))
+	res.Count("field_polyform_composite_multi_block", 1)
+	res.SetAdd("field_kinds", "pf-stress")
+	res.SetAdd("gomaxprocs", fmt.Sprint(runtime.GOMAXPROCS(0)))
+	res.Nontrivial = sc.blocks >= 2
+	return res
+}
+
 // historyCases: multi-step histories on ONE canvas (after the many-blocks cases).
 func historyCases(tier string) int {
 	if tier == "thorough" {
@@ -1007,6 +1158,9 @@ func fieldCase(c *run.Ctx) run.Result {
 	if c.Case < manyBlockCases(c.Tier)+historyCases(c.Tier) {
 		return fieldHistory(c)
 	}
+	if c.Case < manyBlockCases(c.Tier)+historyCases(c.Tier)+pfStressCases(c.Tier) {
+		return pfStress(c)
+	}
 	var res run.Result
 	r := c.Rng
 	budget := 8
@@ -1139,6 +1293,17 @@ func fieldCase(c *run.Ctx) run.Result {
 	}
 	res.Count("field_exact_block_bounds", int64(sc.exactBounds))
 	res.SetAdd("field_cutoffs", fmt.Sprint(sc.Cutoff))
+	for _, f := range sc.Fields {
+		if f.isPF() {
+			res.Count("field_polyform_composite_fields", 1)
+			res.SetAdd("field_kinds", f.Kind)
+			if sc.blocks >= 2 {
+				res.Count("field_polyform_composite_multi_block", 1)
+			}
+		} else {
+			res.SetAdd("field_kinds", f.Kind)
+		}
+	}
 	res.Count("field_blocks", int64(sc.blocks*len(sc.Attrs)))
 	for _, f := range sc.Fields {
 		if len(f.Attrs) > 1 {
